@@ -42,7 +42,7 @@ def oracle(H):
     return oracles.liveness(H)
 
 
-SWEEP = (10, 150)
+SWEEP = (4, 150)
 
 from props._simprop import install  # noqa: E402
 install(globals(), ID, 4000, 60000)
